@@ -50,4 +50,15 @@ PLAN = {
         "level_note": "Trusted: Kani/CBMC; parametricity in T: PartialOrd (an i8 chain of 256 points realises every relative order of six bounds).",
         "technique": "Kani complete harnesses over all i8 interval pairs/triples",
     },
+    "C14": {
+        "level": "proof",
+        "verus": [{"unit": "interval", "functions": ["new", "new_upper", "new_lower", "is_two_sided", "is_one_sided", "is_upper", "is_lower", "left", "right"],
+                   "must_have": ["new", "left", "right"]}],
+        "kani": {"prefix": ["c14_"], "thorough_prefix": ["c14t_"]},
+        "pairs": {"new": "c14_new_wellformed_i8"},
+        "assumptions": [PARAMETRIC],
+        "level_text": "Proof: Interval::new, new_upper/new_lower, the kind predicates and left/right are extracted verbatim (generic T) and verified by Verus against contracts stating exactly which value is returned; Kani decides every constructor and conversion path (tuple, option pair with round trip, ranges, macro-generated tuple conversions for all 12 integer types and both float types, float/int/unsigned projections, width, is_degenerate, PartialEq across kinds, Hash through a recording hasher) with loop-free harnesses over all i8 (and all f32 bit patterns, NaN included, for well-formedness).",
+        "level_note": "Trusted: Verus/Z3, Kani/CBMC, the extractor; parametricity in T for the conversions decided at i8. The Hash harness is bounded by the 24-byte recording buffer (unwind 26; writes beyond it would fail the unwinding assertion).",
+        "technique": "Verus contracts on extracted generic constructors/accessors; Kani complete harnesses at i8/f32 and all integer widths",
+    },
 }
